@@ -450,6 +450,32 @@ func isBackEdge(b, s *ssa.BasicBlock) bool { return s.Dominates(b) }
 
 // newCondSpace builds the condition space of fn. atoms are pre-registered names.
 func newCondSpace(fn *ssa.Function, rec AtomRecogniser, atoms ...string) *CondSpace {
+	return newCondSpaceAvoid(fn, rec, nil, atoms...)
+}
+
+// equivCtx, when set, enables available-load equivalence for condition variables.
+var equivCtx struct {
+	p    *Prog
+	sums *Summaries
+	lf   *LockFacts
+	done map[*ssa.Function]bool
+}
+
+func ensureEquiv(fn *ssa.Function) {
+	if equivCtx.p == nil || equivCtx.done[fn] {
+		return
+	}
+	if equivCtx.p.byName[fname(fn)] != fn {
+		return
+	}
+	equivCtx.done[fn] = true
+	computeLoadEquiv(equivCtx.p, equivCtx.sums, equivCtx.lf, fn)
+}
+
+// newCondSpaceAvoid is newCondSpace where control never passes through the blocks in avoid
+// (reaching conditions then describe only the paths that avoid them).
+func newCondSpaceAvoid(fn *ssa.Function, rec AtomRecogniser, avoid map[*ssa.BasicBlock]bool, atoms ...string) *CondSpace {
+	ensureEquiv(fn)
 	cs := &CondSpace{Fn: fn, idx: map[string]int{}, rec: rec, In: map[*ssa.BasicBlock]Bits{}, backTo: map[*ssa.BasicBlock]bool{}}
 	for _, a := range atoms {
 		cs.idx["@"+a] = len(cs.Vars)
@@ -538,6 +564,10 @@ func newCondSpace(fn *ssa.Function, rec AtomRecogniser, atoms ...string) *CondSp
 			cs.In[b] = in
 		}
 		if len(b.Instrs) == 0 {
+			continue
+		}
+		if avoid[b] {
+			cs.In[b] = cs.False()
 			continue
 		}
 		f := forms[b]
